@@ -62,9 +62,17 @@ def build_H(task, spec):
     I = mps.product_mpo(sp.table["I"], task.N)
     parts, dense = [], 0
     for fac, terms in spec["parts"]:
+        dpart = sp.dense_terms(task.N, terms)
+        if not np.any(np.abs(dpart) > 1e-13):
+            # a part whose terms cancel identically is the zero operator: generate_mpo returns an MPO without blocks, on which Env raises IndexError
+            # (observation, DESIGN 7.4); such a part contributes nothing and is left out on both sides
+            continue
         Hm = mps.generate_mpo(I, sp.hterms(terms))
         parts.append(fac * Hm if fac != 1 else Hm)
-        dense = dense + fac * sp.dense_terms(task.N, terms)
+        dense = dense + fac * dpart
+    if not parts:       # everything cancelled: the zero operator in a form the library accepts (identity MPO with factor 0)
+        parts = [0.0 * I]
+        dense = np.zeros((sp.d ** task.N, sp.d ** task.N), dtype=complex)
     if spec["form"] == "single":
         H = parts[0]
         for p in parts[1:]:
@@ -323,7 +331,12 @@ def h_of_t(task, hspec, tdep):
     """Time-dependent generator as a recording callback: H(t) = H0 + f(t) H1 with f(t) = a + b t."""
     H0, H0d = build_H(task, {"parts": hspec["parts"][:1], "form": "single"})
     if len(hspec["parts"]) > 1:
-        H1, H1d = build_H(task, {"parts": hspec["parts"][1:2], "form": "single"})
+        sp = task.space
+        if not np.any(np.abs(sp.dense_terms(task.N, hspec["parts"][1][1])) > 1e-13):
+            # the time-dependent part cancels identically: use the zero operator in a form the library accepts (factor 0), not an MPO without blocks
+            H1, H1d = 0.0 * H0, 0.0 * H0d
+        else:
+            H1, H1d = build_H(task, {"parts": hspec["parts"][1:2], "form": "single"})
     else:
         H1, H1d = H0, H0d
     a, b = tdep
